@@ -199,17 +199,27 @@ func (w *World) latest(p string) string {
 }
 
 // refVersion: the tag sitting exactly on the revision, else a pseudo-version on the closest
-// tagged ancestor (tags of this module path only).
+// tagged ancestor (tags of this module path only). "" if the project does not exist there.
 func (w *World) refVersion(p string, rev *Revision) string {
+	v, _ := w.refVersionBase(p, rev)
+	return v
+}
+
+// refVersionBase also reports whether the version is a pseudo-version without any tagged
+// ancestor (its spelling, vN.0.0-<time>-<rev>, is then the only thing that identifies it).
+func (w *World) refVersionBase(p string, rev *Revision) (string, bool) {
 	if rev == nil {
-		return ""
+		return "", false
+	}
+	if _, dir := w.repoOf(p); rev.files[dir] == nil {
+		return "", false
 	}
 	_, major := SplitMajor(p)
 	tagsAt := func(r *Revision) string {
 		return highest(w.TaggedVersions(p), func(v string) bool { return w.tags[p][v].rev == r })
 	}
 	if v := tagsAt(rev); v != "" {
-		return v
+		return v, false
 	}
 	base := ""
 	for a := rev.parent; a != nil; a = a.parent {
@@ -218,7 +228,29 @@ func (w *World) refVersion(p string, rev *Revision) string {
 			break
 		}
 	}
-	return module.PseudoVersion(major, base, rev.when, rev.PseudoID())
+	return module.PseudoVersion(major, base, rev.when, rev.PseudoID()), base == ""
+}
+
+// SameUntaggedRevision reports whether got is an acceptable spelling of want, where want is
+// the reference answer of a branch/revision query: identical, or - when the revision has no
+// tagged ancestor at all - any pseudo-version of the same major that names the same revision.
+func (w *World) SameUntaggedRevision(q Query, want, got string) bool {
+	if want == got {
+		return true
+	}
+	if q.Kind != "branch" && q.Kind != "rev" {
+		return false
+	}
+	rev := w.RefRevision(q.Path, q.Arg)
+	if _, nobase := w.refVersionBase(q.Path, rev); !nobase {
+		return false
+	}
+	if !module.IsPseudoVersion(got) || semver.Major(got) != semver.Major(want) {
+		return false
+	}
+	r1, err1 := module.PseudoVersionRev(got)
+	r2, err2 := module.PseudoVersionRev(want)
+	return err1 == nil && err2 == nil && r1 == r2
 }
 
 // OldestAncestorVersion is the answer a resolver gives that bases the pseudo-version on the
